@@ -19,7 +19,10 @@ RULE = ("arrays: 2-D/3-D, odd/even extents, all 4/24 proper grid rotations of ev
         "+ same-parity non-invariant shapes), integer translations incl. ones that push content out, orders 0-3, "
         "with/without mask, with/without caller-supplied output buffers; exact rational rotations (Pythagorean / "
         "integer-quaternion) with dyadic translations at order 1 (compared voxel by voxel with the exact model) and at "
-        "orders 0-3 (centre of mass of a blob); coordinate sets / Structure with dyadic coordinates. "
+        "orders 0-3 (centre of mass of a blob); all signed permutations (also ones that do not fix the shape: half-integer "
+        "sources) with translations in quarters of a voxel at order 1, where matrix, sources and weights are exactly "
+        "representable: every voxel incl. the faces of the box compared with the exact model, random / constant / affine "
+        "/ compactly supported data; coordinate sets / Structure with dyadic coordinates. "
         "Presentation of the arguments (a dimension of 'all arrays'): memory layouts C / Fortran / axis-permuted / strided / "
         "reversed / offset views, read-only arrays and numpy.memmap; dtypes float32 / float64 / int8..int64 / uint8; "
         "intensity scales 2^-30 .. 2^10 (exact powers of two) and offsets up to 1000; rotation matrices as float64 / "
@@ -36,7 +39,8 @@ ASSUMPTIONS = [
     "[0, n-1]) is validated on every run through an index ramp; spline orders 2/3 are not modelled (property clauses "
     "are evaluated on them directly)",
     "real matrices are float32 (backend default): order-1 voxel comparisons skip voxels whose exact source lies within "
-    "1e-3 of a face of the box or of a grid plane's kink is irrelevant (linear), tolerance 2e-3*max|data|",
+    "1e-3 of a face of the box or of a grid plane's kink is irrelevant (linear), tolerance 2e-3*max|data|; the dyadic stream "
+    "(signed permutations, translations k/4, geometric centre) needs no such exclusion: tolerance 1e-6*max|data| on every voxel",
     "coordinate version: same dtype for coordinates and out, except in the dedicated dtype-mismatch stream",
     "grid clauses are evaluated in units of the data's scale 2^k with tolerance max(1e-4, 1e-5 * max|value|): the transform is "
     "linear, the error of spline interpolation and of float32 storage is relative to the largest value; integer / bool masks "
@@ -612,6 +616,111 @@ def case_linear(ctx, inp, model=True):
     ctx.distinct(("linear", shape, inp["R"], inp["t"], geo, via, m is not None, sorted(form.items())))
 
 
+def _suppok(n, t, x):
+    """Lean `SuppOK n t x`: both grid neighbours of x + t are output voxels and their sources o - t lie in [0, n-1]"""
+    import math
+    fl_, ce_ = math.floor(t), math.ceil(t)
+    return 0 <= x + fl_ and x + ce_ <= n - 1 and 0 <= x + fl_ - t and x + ce_ - t <= n - 1
+
+
+def case_linexact(ctx, inp, model=True):
+    """order 1 on exactly representable inputs: a signed permutation (any, also one that does not fix the shape: half-integer
+    sources) with a translation in quarters of a voxel about the geometric centre.  Matrix, sources and weights are dyadic,
+    so float32 / float64 arithmetic is exact: *every* voxel (faces of the box included) is compared with the exact model
+    `rigidLinearArr`, and the consequences proved in Lean for it (range, constants, grid points, affine exactness, mass and
+    first moment under a pure translation) are evaluated on the real output with plain Fractions."""
+    shape = tuple(inp["shape"])
+    d = len(shape)
+    ints = np.array(inp["data"], dtype=np.int64).reshape(shape)
+    R = [[int(v) for v in r] for r in inp["R"]]
+    t = unrat_vec(inp["t"])
+    rinv = transpose(R)
+    via = inp.get("via", "backend")
+    bk = _backend(via)
+    a = ints.astype(np.float32 if via == "backend" else np.float64)
+    Rf = np.array(R, dtype=float)
+    tf = np.array([float(x) for x in t])
+    a_in = a.copy()
+    out, _ = bk.rigid_transform(a_in, Rf, translation=tf, order=1, use_geometric_center=True)
+    ctx.spec("inputs are not modified", inp, bool(np.array_equal(a_in, a)), key="array:input-mutated")
+    out = np.asarray(out, dtype=np.float64)
+    vmax = max(1.0, float(np.abs(ints).max()))
+    tol = 1e-6 * vmax          # float32 rounding of the stored result (measured: exact)
+    c = [Fraction(n - 1, 2) for n in shape]
+    if model:
+        mo = ctx.driver.call("c06.lineararr", shape=list(shape), data=[int(v) for v in ints.reshape(-1)], rinv=frm(rinv),
+                             t=frs(t), c=frs(c))
+        want = np.array([unfr(x) for x in mo["out"]]).reshape(shape)
+        diff = np.abs(out - want)
+        ctx.agree("rigid_transform(order=1) == rigidLinearArr on dyadic inputs, every voxel incl. faces", inp,
+                  bool(diff.max() <= tol), True)
+        ctx.count("linexact:voxels", int(diff.size))
+        ctx.count("linexact:voxels-bit-exact", int((diff == 0).sum()))
+        g = np.indices(shape).reshape(d, -1).astype(float)
+        w = out.reshape(-1)
+        mtol = 1e-5 * vmax * out.size * max(shape)
+        ok = abs(float(w.sum()) - unfr(mo["mass_out"])) <= mtol and all(
+            abs(float((g[k] * w).sum()) - unfr(mo["moment_out"][k])) <= mtol for k in range(d))
+        ctx.agree("mass / first moments of the real output == mass, moment (rigidLinearArr)", inp, bool(ok), True)
+    # ---- clauses (Fractions; nothing from the model): sources R^-1(o-c)+c-t, inside iff 0 <= src <= n-1 on every axis
+    bad_range = bad_zero = bad_grid = bad_aff = None
+    lo, hi = float(ints.min()), float(ints.max())
+    aff = inp.get("affine")         # [alpha, beta...] when the data is that affine function of the index
+    n_inside = n_grid = 0
+    for o in np.ndindex(*shape):
+        src = [sum(rinv[i][j] * (o[j] - c[j]) for j in range(d)) + c[i] - t[i] for i in range(d)]
+        inside = all(0 <= src[i] <= shape[i] - 1 for i in range(d))
+        v = float(out[o])
+        if not inside:
+            if v != 0.0 and bad_zero is None:
+                bad_zero = {"at": list(map(int, o)), "got": v}
+            continue
+        n_inside += 1
+        if not (lo - tol <= v <= hi + tol) and bad_range is None:
+            bad_range = {"at": list(map(int, o)), "got": v, "range": [lo, hi]}
+        if all(x.denominator == 1 for x in src):
+            n_grid += 1
+            if abs(v - float(ints[tuple(int(x) for x in src)])) > tol and bad_grid is None:
+                bad_grid = {"at": list(map(int, o)), "got": v, "src": [int(x) for x in src]}
+        if aff is not None:
+            wantv = float(aff[0] + sum(aff[1 + i] * src[i] for i in range(d)))
+            if abs(v - wantv) > tol and bad_aff is None:
+                bad_aff = {"at": list(map(int, o)), "got": v, "want": wantv}
+    ctx.spec("order 1: a voxel whose source lies outside the array is 0 (zero fill)", inp, bad_zero is None, bad_zero,
+             key="array:linear-exact:zero-fill")
+    ctx.spec("order 1: inside the array min <= out <= max (partition of unity)", inp, bad_range is None, bad_range,
+             key="array:linear-exact:range")
+    ctx.spec("order 1: a voxel whose source is a grid point holds exactly that voxel", inp, bad_grid is None, bad_grid,
+             key="array:linear-exact:grid-point")
+    if aff is not None:
+        ctx.spec("order 1: affine data (constants included) is reproduced exactly inside the array", inp, bad_aff is None, bad_aff,
+                 key="array:linear-exact:affine")
+        ctx.count("linexact:affine" if any(aff[1:]) else "linexact:constant")
+    ident = all(R[i][j] == (1 if i == j else 0) for i in range(d) for j in range(d))
+    if ident:
+        supp_ok = all(all(_suppok(shape[i], t[i], x[i]) for i in range(d)) for x in np.ndindex(*shape) if ints[x] != 0)
+        if supp_ok:
+            g = np.indices(shape).reshape(d, -1)
+            w_in = ints.reshape(-1)
+            m_in = int(w_in.sum())
+            mtol = 1e-5 * vmax * out.size * max(shape)
+            w = out.reshape(-1)
+            bad = None
+            if abs(float(w.sum()) - m_in) > mtol:
+                bad = {"mass_in": m_in, "mass_out": float(w.sum())}
+            for k in range(d):
+                wantm = float(int((g[k] * w_in).sum()) + t[k] * m_in)
+                if abs(float((g[k] * w).sum()) - wantm) > mtol and bad is None:
+                    bad = {"axis": k, "moment_out": float((g[k] * w).sum()), "want": wantm}
+            ctx.spec("order 1, pure translation with the shifted support inside: mass kept, first moment moves by exactly t*mass",
+                     inp, bad is None, bad, key="array:linear-exact:first-moment")
+            ctx.count("linexact:first-moment")
+    ctx.count(f"linexact:{d}D:" + ("identity" if ident else ("invariant" if leaves_invariant(R, shape) else "non-invariant")))
+    ctx.count("linexact:inside-voxels", n_inside)
+    ctx.count("linexact:grid-point-voxels", n_grid)
+    ctx.distinct(("linexact", shape, inp["R"], inp["t"], inp.get("mode"), via))
+
+
 def case_com(ctx, inp, model=True):
     """arbitrary proper rotation, any order: the centre of mass of a blob follows R(x + t - c) + c (data and mask).
     Optional: absolute intensity scale (any float), float64 data, memory layout, Density.rigid_transform, and the
@@ -1058,7 +1167,7 @@ def case_sseq(ctx, inp, model=True):
     ctx.count("sseq")
 
 
-_CASES = {"grid": case_grid, "matrix": case_matrix, "linear": case_linear, "com": case_com, "coords": case_coords,
+_CASES = {"grid": case_grid, "matrix": case_matrix, "linear": case_linear, "linexact": case_linexact, "com": case_com, "coords": case_coords,
           "agree": case_agree, "sequence": case_sequence, "dseq": case_dseq, "sseq": case_sseq}
 
 
@@ -1344,6 +1453,47 @@ def gen_linear(ctx, rng, n):
     return cases
 
 
+def gen_linexact(ctx, rng, n):
+    """signed permutations (all 4 / 24 proper ones and mirrors, whether or not they fix the shape) x translations in
+    quarters, geometric centre, order 1; data: random / constant / affine ramp / blob with a margin (pure translations)"""
+    cases = []
+    perms = {2: signed_perms(2), 3: signed_perms(3)}
+    for i in range(n):
+        d = 2 if i % 3 else 3
+        shape = tuple(int(v) for v in rng.integers(2, 8 if d == 2 else 6, size=d))
+        mode = ("random", "constant", "ramp", "blob")[i % 4]
+        ident = [[1 if a == b else 0 for b in range(d)] for a in range(d)]
+        R = ident if (mode == "blob" or rng.random() < 0.15) else perms[d][int(rng.integers(len(perms[d])))]
+        t = [Fraction(int(v), 4) for v in rng.integers(-6, 7, size=d)] if rng.random() < 0.8 else [Fraction(0)] * d
+        c = {"kind": "linexact", "shape": list(shape), "R": R, "mode": mode}
+        if mode == "random":
+            data = rng.integers(-5, 10, size=shape)
+        elif mode == "constant":
+            k = int(rng.integers(-7, 8)) or 3
+            data = np.full(shape, k)
+            c["affine"] = [k] + [0] * d
+        elif mode == "ramp":
+            al, be_ = int(rng.integers(-5, 6)), [int(v) for v in rng.integers(-3, 4, size=d)]
+            data = al + sum(be_[k] * np.indices(shape)[k] for k in range(d))
+            c["affine"] = [al] + be_
+        else:
+            shape = tuple(max(4, s_) for s_ in shape)
+            c["shape"] = list(shape)
+            t = [Fraction(int(v), 4) for v in rng.integers(-4, 5, size=d)]
+            data = np.zeros(shape, dtype=np.int64)
+            ok_ax = [[x for x in range(shape[k]) if _suppok(shape[k], t[k], x)] for k in range(d)]
+            if all(ok_ax):
+                for x in itertools.product(*ok_ax):
+                    if rng.random() < 0.7:
+                        data[x] = int(rng.integers(-3, 10))
+        c["t"] = frs(t)
+        c["data"] = [int(v) for v in np.asarray(data).reshape(-1)]
+        if rng.random() < 0.15:
+            c["via"] = "backend64"
+        cases.append(c)
+    return cases
+
+
 def gen_com(ctx, rng, n):
     cases = []
     sigma = 1.3
@@ -1543,6 +1693,7 @@ def run(ctx):
     _run_cases(ctx, grid)
     _run_cases(ctx, gen_matrix(ctx, rng, ctx.budget(300, 3000)))
     _run_cases(ctx, gen_linear(ctx, rng, ctx.budget(150, 1500)))
+    _run_cases(ctx, gen_linexact(ctx, ctx.rng("linexact"), ctx.budget(100, 1200)))
     _run_cases(ctx, gen_com(ctx, rng, ctx.budget(48, 400)))
     _run_cases(ctx, gen_coords(ctx, rng, ctx.budget(600, 6000)))
     _run_cases(ctx, gen_agree(ctx, rng, ctx.budget(120, 800)))
@@ -1565,6 +1716,7 @@ def search(ctx):
     _run_cases(ctx, gen_coords(ctx, rng, 1500), model=False)
     _run_cases(ctx, gen_agree(ctx, rng, 200), model=False)
     _run_cases(ctx, gen_linear(ctx, rng, 300), model=False)
+    _run_cases(ctx, gen_linexact(ctx, rng, 300), model=False)
     _run_cases(ctx, gen_sequences(ctx, rng, 150), model=False)
 
 
